@@ -77,6 +77,14 @@ CHECKS = {
    technique="property-based testing (proptest): independent parser of CLUSTER NODES/SLOTS over hand-built cluster maps with arbitrary migration-state maps, and over real proxies of reachable broker states frozen in generated migration phases; agreement oracle with routing probes",
    text="(maps) ClusterBackendMap with generated segments (stable local/peer, migrating out, importing, third-party migration, gaps), arbitrary state maps, both NODES versions: each covered slot exactly once in NODES and SLOTS at the same address, one myself line, stable slots advertised where a probe executes / is MOVED to, migrating slots at source iff PreCheck else destination, bystander either side once. (phases) the C02 worlds: NODES/SLOTS of every proxy (source, destination, bystander) in each frozen phase.",
    note="A bystander (no state for the range) may advertise either side; a proxy that holds no state yet for its own migration may advertise either side."),
+ "C08": dict(engine="conn", category="fault_enumeration", design="DESIGN.md §3 C08",
+   technique="property-based testing / fault injection (proptest): generated request pipelines against a scripted backend that fragments, coalesces, delays, stalls and cuts the reply byte stream at generated positions; identity oracle (a reply carries the id of the request it answers) and exactly-once/ordering oracle",
+   text="(backend-node) the real BackendNode/handle_backend/ReplyCommitHandler with real CmdCtx tasks over the real RespCodec on an in-memory duplex stream; per connection a generated plan (refuse, latency, byte fragmentation, coalescing, stall beyond backend_timeout, cut after byte n / request m, then reconnect), batching disabled/fixed/dynamic: every request resolves exactly once in bounded virtual time, successes carry their own id, the backend sees a request at most retry-budget+1 times, reconnect storms are detected. (session) the full stack over loopback TCP: real handle_session -> ForwardHandler -> scripted backend with fragmented client writes and interleaved locally-answered commands: reply k answers request k.",
+   note="Fault positions are generated (random plans), not exhaustively enumerated per pipeline. The TCP layer runs in real time."),
+ "C16": dict(engine="proxysim", category="exploration", design="DESIGN.md §3 C16",
+   technique="fuzzing-style property-based testing (proptest) with process isolation: byte streams and structured commands with extreme arguments executed in child worker processes; oracles: process survival, panic log, counting-allocator memory bound, bounded completion time, liveness of a second connection",
+   text="Inputs are run in child processes of the harness (an abort, stack overflow or refused giant allocation is an observation). Byte streams with hostile length prefixes, nesting to depth 200000, truncations and raw bytes; well-formed commands of every family the executor special-cases with arguments from {missing, empty, non-UTF-8, 0, -1, 2^62, 2^63-1, 2^64-1, 2^64, long digits, keywords, long strings}, before and after metadata is set, compression on/off. No death, no panic on any thread, peak memory <= 16 MiB + 4096 x bytes received, completion within 8 s wall (triple-confirmed) / 3600 virtual s, a second connection keeps being served.",
+   note="The session is driven in-process through the real decoder, Session::handle_cmd/handle_slowlog and ForwardHandler (the TCP accept loop is not in the loop). This is the only check where a wall-clock limit is part of the oracle. Build profile: debug assertions and overflow checks ON for undermoon."),
 }
 
 NOT_YET = {}
@@ -115,6 +123,7 @@ def main():
         "engines": [
             {"name": "brokersim", "path": "harness/src/engines/brokersim.rs", "serves_properties": ["C01","C04","C06","C10","C12","C13","C18","C17"], "kind_free_text": "proptest-generated operation histories against the real MemBrokerService, oracles over the served JSON views after every step"},
             {"name": "codec", "path": "harness/src/engines/codec.rs", "serves_properties": ["C15","C17","C09","C19"], "kind_free_text": "pure functions: RESP value model, reference encoder, strict reference recognizer; reference decoders for control-plane messages"},
+            {"name": "conn", "path": "harness/src/engines/conn.rs", "serves_properties": ["C08"], "kind_free_text": "scripted backend behind the ConnFactory seam: the real RESP codec over an in-memory duplex byte stream; fragmentation, coalescing, latency, stalls and cuts from a generated plan"},
             {"name": "proxysim", "path": "harness/src/engines/world.rs", "serves_properties": ["C05","C09","C20","C14","C02","C03","C19","C07"], "kind_free_text": "in-process world: real proxies (SharedForwardHandler), stateful Redis stand-ins and a fake network implementing ConnFactory/RedisClientFactory on a paused-clock single-thread runtime; message delays/holds/faults decided by the generated schedule"},
         ],
         "checks": checks,
